@@ -60,6 +60,14 @@ class HyWorld:
         self.epoch = {}
         self.numeric_views = False
         self._views(self.W.buffer)
+        mk0 = self.W.mk_buffer
+
+        def mk_buffer(name):  # buffers the library creates for itself (no buffer given) hand out views too
+            b = mk0(name)
+            self._views(b)
+            return b
+
+        self.W.mk_buffer = mk_buffer
 
     # ---------------------------------------------------------------- building
     def _views(self, b):
@@ -132,7 +140,6 @@ class HyWorld:
     def buf(self, tag):
         if tag not in self.bufs:
             self.bufs[tag] = self.W.mk_buffer(tag)
-            self._views(self.bufs[tag])
         return self.bufs[tag]
 
     def fresh_buf(self):
